@@ -178,7 +178,14 @@ static void do_op(m_bst_t *t, const int op, const int a, const unsigned mask) {
 /* one step: symbolic (op, choice); every value continues on its own copy of the state */
 static void step(m_bst_t *t, const int s) {
     if (s >= L) { finish(t); return; }
+#ifdef VF_OPSEQ
+    /* the operation of every step is a per-job constant (longer scripts than the fully symbolic ones can afford);
+     * the argument's relative position stays symbolic */
+    static const unsigned char opseq[L] = VF_OPSEQ;
+    const unsigned char op = opseq[s];
+#else
     VF_PICK(op, S_NOPS);
+#endif
     unsigned char choice = nondet_uchar();
     /* candidate arguments for this state (all concrete): the stored cell of every element, its twin under the user
      * comparator, and the midpoint cell of every gap */
@@ -198,7 +205,14 @@ static void step(m_bst_t *t, const int s) {
         } else if (o == S_CLEAR) {
             if (VF_TAKE() && op == o) { do_op(t, o, 0, 0); step(t, s + 1); return; }
         } else {
-            for (int k = 0; k < 3 * L + 2; k++) if (k < nc && VF_TAKE() && op == o && choice == k) { do_op(t, o, cand[k], 0); step(t, s + 1); return; }
+            for (int k = 0; k < 3 * L + 2; k++) if (k < nc && VF_TAKE() && op == o && choice == k) {
+#ifdef VF_OPSEQ
+                /* long fixed scripts: inserts use new keys, removals present keys (the other cases are the short scripts' job) */
+                if (o == S_INSERT && model_pos(cand[k]) >= 0) continue;
+                if (o == S_REMOVE && (model_pos(cand[k]) < 0 || cand[k] != srt[model_pos(cand[k])])) continue;
+#endif
+                do_op(t, o, cand[k], 0); step(t, s + 1); return;
+            }
         }
     }
     VF_ASSUME(0);                      /* (op, choice) names no case of this state / of this job */
